@@ -230,7 +230,16 @@ def random_molecule(rng, nmin=2, nmax=9, resn="LIG"):
             break
         b.attach(rng.choice(GROUPS))
     # close most remaining valences with hydrogens but never leave an O.3/N.3 hypervalent
-    return b.finish()
+    mol = b.finish()
+    if rng.random() < 0.2:
+        # a salt: one or two counter-ion atoms without any bond record (halides)
+        c = np.array([a["xyz"] for a in mol["atoms"]]).mean(axis=0)
+        for k in range(rng.randint(1, 2)):
+            t = rng.choice(["Cl", "Br", "F", "I"])
+            nm = (t.upper() + "X" + str(k))[:4]
+            mol["atoms"].append(dict(mol["atoms"][0], type=t, name=nm,
+                                     xyz=tuple(float(v) for v in c + np.array([6.0 + 3 * k, 5.0, 4.0]))))
+    return mol
 
 
 def wl_classes(mol, rounds=None):
